@@ -93,7 +93,10 @@ InstAccepted(passes, end, use, hops) ==
    `int a[int[0,h]]`, `int a[int[h,5]]` *)
 (* lead: the number of ordinary parameters declared BEFORE the one that sizes the array (the instantiations bind them to constants):
    the propagation of `restricted` through instantiation_end walks the parameter list *)
-InstCases == {[passes |-> n, end |-> e, use |-> u, hops |-> h, dim |-> d, lead |-> l, accepted |-> InstAccepted(n, e, u, h)] :
+(* place: where in the template the array is declared: among its declarations, in the body of one of its functions, in a nested block of one *)
+InstCases == {[passes |-> n, end |-> e, use |-> u, hops |-> h, dim |-> d, lead |-> l, place |-> "templ", accepted |-> InstAccepted(n, e, u, h)] :
                 n \in 0..2, e \in InstEnds, u \in {"arrsize", "guard"}, h \in 0..3, d \in {"size", "upper", "lower"}, l \in 0..1}
+             \cup {[passes |-> n, end |-> e, use |-> "arrsize", hops |-> h, dim |-> d, lead |-> 0, place |-> pl, accepted |-> InstAccepted(n, e, "arrsize", h)] :
+                n \in 0..1, e \in InstEnds, h \in 0..1, d \in {"size", "upper"}, pl \in {"func", "block"}}
 EmitInst == PrintT(<<"EMIT", ToJson([inst |-> InstCases])>>)
 =============================================================================
